@@ -26,7 +26,7 @@ func registerC11() {
 			"files, and chains of 2-3 of them; for every stream EVERY byte offset c in [0, len] x {clean cut, injected non-EOF read error from c on: a private sentinel, io.ErrUnexpectedEOF, io.ErrClosedPipe, os.ErrClosed, and - rotating by offset, all of them at every file boundary - deadline / timeout / cancellation / connection-reset / path errors} x six entry points x " +
 			"{1-byte reads, greedy reads} is executed: c before the entry point's needed prefix => a non-nil error and (Decode, DecodeChained) a partial File holding exactly " +
 			"the messages of the records complete before c; c at or after it => the intact result; at every other offset Decode / DecodeChained run with all options on (second chunker): same error and messages, and the unknown-field / unknown-message lists of the partial File must lie between the model of the complete records and the model including the record in flight; clean EOF exactly on a file boundary of a chain => the files before it and " +
-			"nil; a fault on a boundary => error. The same cuts are also made on disk and read through *os.File (every third offset). Family huge-streams: files of 6 and 9 MiB cut or faulted at offsets beyond 4 MiB (Decode, DecodeChained), same oracle. Family large-streams: model streams of 9-40 KB (several refills of the decoder's 4096-byte buffer) cut/faulted at every offset within 40 bytes of a multiple of 4096, within 64 bytes of either end, and at every 211th offset in between, under 1000-byte and greedy chunkers, same oracle. A case is one (stream, offset, kind, entry point, chunker) execution; non-trivial: c lies strictly inside the stream; distinct by construction",
+			"nil; a fault on a boundary => error. The same cuts are also made on disk and read through *os.File (every third offset). Family huge-streams: files of 6 and 9 MiB cut or faulted at offsets beyond 4 MiB (Decode, DecodeChained), same oracle. Family large-streams: model streams of 9-40 KB (several refills of the decoder's 4096-byte buffer) cut/faulted at every offset within 40 bytes of a multiple of 4096, within 64 bytes of either end, and at every 211th offset in between, under 1000-byte and greedy chunkers, same oracle. The fault values rotate through error values of real reader stacks and through errors this library itself returned for empty or cut sources (bare and wrapped), all of them tried at every file boundary. A case is one (stream, offset, kind, entry point, chunker) execution; non-trivial: c lies strictly inside the stream; distinct by construction",
 		Assume:        []string{"partial content is compared on message slots (the file_id of a file whose file_id record is incomplete is not defined)"},
 		MinNontrivial: 5000,
 		Families: []lib.Family{
